@@ -212,6 +212,19 @@ pub fn mirror_scenario(prop: &str, seed: u64, index: u64) -> Option<Scenario> {
     if prop == "C19" && rng.chance(0.15) {
         scn.params.insert("mutate_after_pd".into(), 1.0);
     }
+    // a callback whose answer depends on its call history: the k-th validity query (counted over
+    // the whole scenario) answers False whatever the state. Both sides must ask the same
+    // questions in the same order for the results to agree.
+    if prop == "C19" && rng.chance(0.2) {
+        let k = 1 + rng.below(120);
+        scn.faults.push(FaultSpec::ValidityFalseAt { at_call: k });
+        scn.params.insert("validity_false_at".into(), k as f64);
+    }
+    // Python only: the component wrappers of a compound are mutated after the compound space was
+    // built from them (it copied them) and before the problem definition is created
+    if prop == "C19" && matches!(scn.space, SpaceSpec::Compound { .. }) && rng.chance(0.3) {
+        scn.params.insert("mutate_components_after_compound".into(), 1.0);
+    }
     // a start that coincides with the (fixed) goal sample: the core's path then repeats a state
     if prop == "C19" && rng.chance(0.06) {
         scn.problems[0].goal.target = scn.problems[0].starts[0].clone();
